@@ -925,12 +925,37 @@ class Translator:
                 w, env2 = fresh_w()
                 return '(modelUpdateM %s %s %s fun %s =>\n      %s)' % (env[s.value.func.value.id], self.expr(s.value.args[0], env, cname),
                                                                        env['__w'], w, self.block(rest, env2, cname, end, brk))
+            ELEMENT_MODELS = ('PolicySubjectModel', 'PolicyResourceModel', 'PolicyActionModel')
+            if isinstance(s, ast.For) and not s.orelse and isinstance(s.target, ast.Name) and \
+                    isinstance(s.iter, (ast.Tuple, ast.List)) and s.iter.elts and \
+                    all(isinstance(x, ast.Name) and x.id in ELEMENT_MODELS for x in s.iter.elts):
+                # a loop over (some of) the element models: unrolled, the loop variable replaced by each model in turn
+                class _Subst(ast.NodeTransformer):
+                    def __init__(self, frm, to):
+                        self.frm, self.to = frm, to
+
+                    def visit_Name(self, n):
+                        return ast.copy_location(ast.Name(id=self.to, ctx=n.ctx), n) if n.id == self.frm else n
+                import copy as _copy
+                unrolled = []
+                for x in s.iter.elts:
+                    for b in s.body:
+                        unrolled.append(ast.fix_missing_locations(_Subst(s.target.id, x.id).visit(_copy.deepcopy(b))))
+                return self.block(unrolled + rest, env, cname, end, brk)
             if isinstance(s, ast.Expr) and isinstance(s.value, ast.Call) and isinstance(s.value.func, ast.Attribute) and \
                     s.value.func.attr == 'delete' and not s.value.args and isinstance(s.value.func.value, ast.Call) and \
                     isinstance(s.value.func.value.func, ast.Attribute) and s.value.func.value.func.attr == 'filter' and \
                     sess_call(s.value.func.value.func.value, 'query') and len(s.value.func.value.args) == 1:
                 cond = s.value.func.value.args[0]
                 q = s.value.func.value.func.value
+                if isinstance(cond, ast.Compare) and len(cond.ops) == 1 and isinstance(cond.ops[0], ast.Eq) and \
+                        isinstance(cond.left, ast.Attribute) and cond.left.attr == 'uid' and \
+                        isinstance(cond.left.value, ast.Name) and cond.left.value.id in ELEMENT_MODELS and \
+                        len(q.args) == 1 and isinstance(q.args[0], ast.Name) and q.args[0].id == cond.left.value.id:
+                    # the element rows of one uid in one of the three element tables
+                    w, env2 = fresh_w()
+                    return '(sessElemDeleteM "%s" %s %s fun %s =>\n      %s)' % (q.args[0].id, self.expr(cond.comparators[0], env, cname),
+                                                                               env['__w'], w, self.block(rest, env2, cname, end, brk))
                 if isinstance(cond, ast.Compare) and len(cond.ops) == 1 and isinstance(cond.ops[0], ast.Eq) and \
                         isinstance(cond.left, ast.Attribute) and cond.left.attr == 'uid' and \
                         isinstance(cond.left.value, ast.Name) and cond.left.value.id == 'PolicyModel' and \
